@@ -75,12 +75,15 @@ def id_of(cls) -> int:
     return _state["ids"].get(cls, 0)
 
 
-def markers() -> sched.MarkerSet:
+def markers(walk: bool = False) -> sched.MarkerSet:
+    """walk=True: also a yield point per binding model INSIDE the class-tree walk of build_xsi_cache (the generator
+    of get_subclasses is suspended there); the specification has no step for it (nothing shared is written), so the
+    label carries the prefix that keeps it out of the validated traces."""
     return sched.MarkerSet(
         [
             sched.Marker(
                 XmlContext.build_xsi_cache,
-                [
+                ([(r"builder\.build_class_meta\(clazz\)", "p_walk")] if walk else []) + [
                     (r"len\(sys\.modules\)\s*==\s*self\.sys_modules", "x_check"),
                     (r"self\.xsi_cache\.clear\(\)", "x_clear"),
                     (r"self\.xsi_cache\[[^\]]+\]\.append", "x_fill"),
